@@ -558,6 +558,22 @@ class Gen(object):
 
         posonly, args, kwonly, defaults, kw_defaults = [], [], [], [], []
         vararg = kwarg = None
+        if method and self.p(0.15):
+            # a method without positional parameters: (*args, flag=..., **options) or (*, value, factor=2)
+            save = self.scope
+            self.scope = outer
+            try:
+                if self.p(0.5):
+                    vararg = ast.arg(arg=fresh(), annotation=None)
+                for _ in range(self.i(1, 2)):
+                    kwonly.append(ast.arg(arg=fresh(), annotation=ann()))
+                    kw_defaults.append(self.expr() if self.p(0.6) else None)
+                if self.p(0.4):
+                    kwarg = ast.arg(arg=fresh(), annotation=None)
+            finally:
+                self.scope = save
+            self.features.add('method_without_positional_parameters')
+            return ast.arguments(posonlyargs=[], args=[], vararg=vararg, kwonlyargs=kwonly, kw_defaults=kw_defaults, kwarg=kwarg, defaults=[])
         if method and self.p(0.8):
             first = self.choice(['self', 'cls', 'self', 'alpha_value'])
             if first not in used:
